@@ -15,7 +15,10 @@ from .workload import gen_workload
 
 
 def simset_differential(n_cases=300):
-    from .simset import SCHED, SimFrozenSet, SimSet
+    from .simset import SCHED, SimFrozenSet, SimSet, _volatile
+
+    def _vol(x):
+        return len(x) >= 2 and _volatile(list(x))
     SCHED.reset("identity")
     rng = random.Random(12345)
     pool_ = ["a", "b", "c", "dd", "e", 1, 2, 3, None, ("x", 1), "f", "g"]
@@ -74,7 +77,7 @@ def simset_differential(n_cases=300):
                 r1 = getattr(a, name)(set(other))
                 r2 = getattr(b, name)(o2)
                 assert r1 == r2 and isinstance(r2, SimSet), (case, name)
-                assert list(r2) == [x for x in list(b) + [y for y in (list(o2) if isinstance(o2, (SimSet, SimFrozenSet)) else sorted(set(other), key=lambda e: (type(e).__name__, repr(e)))) if y not in b] if x in r1], (case, name)
+                assert (not _vol(r1)) or list(r2) == [x for x in list(b._ord) + [y for y in (list(o2._ord) if isinstance(o2, (SimSet, SimFrozenSet)) else sorted(set(other), key=lambda e: (type(e).__name__, repr(e)))) if y not in b] if x in r1], (case, name)
                 import operator
                 opf = getattr(operator, name.strip("_") + ("_" if name in ("__or__", "__and__") else ""))
                 r3 = opf(o2, b)
@@ -83,9 +86,9 @@ def simset_differential(n_cases=300):
                 if mk is not frozenset:  # builtin frozenset on the left of a SimSet keeps the builtin result
                     assert type(r3).__name__ in ("SimSet", "SimFrozenSet"), (type(r3), type(o2), name)
         f = SimFrozenSet(b)
-        assert f == frozenset(a) and hash(f) == hash(frozenset(a)) and list(f) == list(b)
-        assert SimSet(f) == a and list(SimSet(f)) == list(b)
-        assert b.copy() == a and list(b.copy()) == list(b)
+        assert f == frozenset(a) and hash(f) == hash(frozenset(a)) and (not _vol(a) or list(f) == list(b._ord))
+        assert SimSet(f) == a and (not _vol(a) or list(SimSet(f)) == list(b._ord))
+        assert b.copy() == a and (not _vol(a) or list(b.copy()) == list(b._ord))
         assert (b <= b | SimSet(other)) and b.isdisjoint(SimSet()) and (repr(b) == "set()" if not a else True)
     # random mode permutes, replays exactly, and never changes membership
     s = SimSet(["k%d" % i for i in range(8)])
@@ -97,7 +100,7 @@ def simset_differential(n_cases=300):
     p3 = list(s)
     SCHED.reset("identity")
     assert p1 == p2 and sorted(p1) == sorted(p3) == sorted(s) and (p1 != list(s) or p3 != list(s))
-    assert list(SimSet([3, 1, 2])) == [3, 1, 2]
+    assert list(SimSet([3, 1, 2])) == list(set([3, 1, 2]))  # non-volatile: the real table order
     return n_cases
 
 
